@@ -73,9 +73,22 @@ func vxPlantLayout(ks []int, gaps []int, pattern int, ownLines bool) ([]byte, []
 	return vxText(words, brk), plants
 }
 
+// vxRefQ is the minimum run length implied by the threshold, written down independently of the
+// code under test (4 words at 0.8).
+func vxRefQ(t float64) int {
+	if t == 1.0 {
+		return 10
+	}
+	q := int(t / (1.0 - t))
+	if q < 1 {
+		q = 1
+	}
+	return q
+}
+
 func vxCheckPlants(c *Classifier, r Results, plants []vxPlant) {
 	for _, p := range plants {
-		if len(vxFamily[p.doc]) < c.q {
+		if len(vxFamily[p.doc]) < vxRefQ(c.threshold) {
 			continue // shorter than the minimum run length implied by the threshold
 		}
 		found := false
@@ -100,10 +113,10 @@ func h01a(thorough bool) {
 	t := vxFloat64(0.7, 1.0)
 	world, a, b, pat := []int{1}, 1, 1, 0
 	if thorough {
-		world = [][]int{{0}, {1}, {0, 1}}[vxChoice(3)]
+		world = [][]int{{0}, {1}, {0, 1}, {8}, {9}}[vxChoice(5)]
 		a, pat = vxChoice(2)+1, vxChoice(2)
 	} else {
-		pat = vxChoice(2)
+		world = [][]int{{1}, {8}}[vxChoice(2)] // 8 words; 3 words (exactly the minimum run length below 0.8)
 	}
 	c := vxBuildWorld(t, world...)
 	k := world[vxChoice(len(world))]
